@@ -45,7 +45,9 @@ RULE = (
     "(MOR accepted under both readings of 'remaining'); score rules: scores "
     "obtained by calling the scoring functions in the same state, dispatched "
     "score tuple lexicographically maximal among available operations; direct "
-    "and observer-based MWKR return the identical operation in every state; "
+    "and observer-based MWKR return the identical operation in every state, "
+    "also on a twin dispatcher where the observer-based rule is first used in "
+    "a generated later state; "
     "after num_operations steps the schedule is complete and feasible; "
     "solver(instance) returns a complete feasible schedule with elapsed_time "
     ">= 0 and solved_by == class name. Non-trivial: some state offered >=2 "
@@ -175,6 +177,10 @@ def check_case(case, ctx):
     solver, names, scorers, kind = build_solver(case)
     random.seed(case["seed"])
     d = Dispatcher(instance, solver.ready_operations_filter)
+    # twin on which the observer-based rule is first used in a later state
+    instance_late = build_instance(inst)
+    d_late = Dispatcher(instance_late, solver.ready_operations_filter)
+    late_from = case["seed"] % 7
     m = ref(inst)
     n = m.n_ops
     dur, mach = inst["durations"], inst["machines"]
@@ -204,6 +210,15 @@ def check_case(case, ctx):
             "mwkr-equivalence",
             f"step {k} (history {m.order}): direct MWKR picks {fp.jp(a1)}, observer-based picks {fp.jp(a2)}",
         )
+        if k >= late_from:
+            b1 = most_work_remaining_rule(d_late)
+            b2 = observer_based_most_work_remaining_rule(d_late)
+            ctx.check(
+                b1 is b2,
+                "mwkr-equivalence-late",
+                f"step {k} (history {m.order}; observer-based rule first used at step {late_from}): "
+                f"direct MWKR picks {fp.jp(b1)}, observer-based picks {fp.jp(b2)}",
+            )
         score_rows = None
         if scorers is not None:
             score_rows = [list(s(d)) for s in scorers]
@@ -264,6 +279,7 @@ def check_case(case, ctx):
             if len(set(vals.values())) > 1:
                 had_choice = True
         m.apply(j, mm)
+        d_late.dispatch(instance_late.jobs[j][p], mm)
         ctx.count("steps")
     rows = fp.schedule_rows(d.schedule)
     ctx.check(d.schedule.is_complete(), "not-complete", f"incomplete after {n} steps")
